@@ -68,6 +68,9 @@ Contiguous(c) == \A i \in 1..Len(c.evs) : c.evs[i].seq = c.evs[1].seq + i - 1
 CacheAt(c, i) == cache \cup {c.evs[j].zone : j \in {x \in 1..(i-1) : c.evs[x].zone \in Known}}
 MemoOK(c) == \A i \in 1..Len(c.evs) :
    LET kind == LookupKind(CacheAt(c, i), c.evs[i].zone, Known) IN c.evs[i].hit <=> (kind = "hit")
+\* "calls never deadlock": a call that did not return (the harness gave up on the process) is explained by nothing,
+\* not even by a reference run that hangs as well
+Returned(c) == c.out.kind # "timeout"
 SameOut(c) == c.out.kind = c.f.kind /\ c.out.s = c.f.s
 ResultOK(th, c) ==
    IF PoisonBehaviour = "recover" THEN SameOut(c)
@@ -79,7 +82,8 @@ FlagOK(th, c) == c.pz => (IsPanic(c) \/ PanicMaybeBefore(th, c))
 
 \* spec-computed class of a disagreement (keys of known findings)
 ClsOf(th, c) ==
-   IF ~OrderOK(th, c) THEN "program-order"
+   IF ~Returned(c) THEN "deadlock"
+   ELSE IF ~OrderOK(th, c) THEN "program-order"
    ELSE IF ~SeqStartOK(c) THEN "seq-gap"
    ELSE IF ~Contiguous(c) THEN "overlap"
    ELSE IF ~MemoOK(c) THEN "cache-memo"
